@@ -20,9 +20,9 @@ PROPERTY = "C17"
 RULE = (
     "explicit-state BFS over public-operation histories: start states {configured ML machine, ML machine with per-component "
     "floors, MAP machine adapted from a prior, machine restored from HDF5} x every sequence of <= depth operations from a "
-    "menu of 28 (4 weight assignments incl. a list, 2 mean arrays, 3 variance arrays (some below the floors), 6 floor "
+    "menu of 31 (5 weight assignments incl. a list and a pruned component, 2 mean arrays, 3 variance arrays (some below the floors), 6 floor "
     "assignments (scalar low/high, per-feature, per-component low/high, default), 8 single EM steps (one per switch set), "
-    "deepcopy, pickle, HDF5 save->from_hdf5, load into self, one fit with 2 steps); states de-duplicated by the full object "
+    "deepcopy, pickle, HDF5 save->from_hdf5, load into self, one fit with 2 steps, training / re-configuring a shallow copy); states de-duplicated by the full object "
     "state; the invariant is evaluated on every transition. A case (start, first op) is non-trivial when its search reached "
     ">= 2 distinct states; distinct = distinct (start, first op)"
 )
@@ -34,18 +34,18 @@ BUDGET = {"quick": 900, "thorough": 4 * 3600}
 DEPTH = {"quick": 3, "thorough": 4}
 
 OPS = (
-    [("w", i) for i in range(4)]
+    [("w", i) for i in range(5)]
     + [("mu", i) for i in range(2)]
     + [("var", i) for i in range(3)]
     + [("floor", i) for i in range(6)]
     + [("em", i) for i in range(8)]
-    + [("deepcopy", 0), ("pickle", 0), ("hdf5", 0), ("load", 0), ("fit2", 0)]
+    + [("deepcopy", 0), ("pickle", 0), ("hdf5", 0), ("load", 0), ("fit2", 0), ("sibling", 0), ("sibling", 1)]
 )
 STARTS = ["ml", "ml_matrix_floor", "map", "restored"]
 
 
 def _alph(s, o):
-    W = [np.array([0.5, 0.5]), np.array([0.125, 0.875]), np.array([0.75, 0.25]), [0.25, 0.75]]
+    W = [np.array([0.5, 0.5]), np.array([0.125, 0.875]), np.array([0.75, 0.25]), [0.25, 0.75], np.array([1.0, 0.0])]  # the last one prunes a component
     MU = [np.array([[0.0, 1.0], [2.5, -3.0]]) * s + o, np.array([[10.0, 0.0], [-0.5, 2.5]]) * s + o]
     VAR = [np.array([[1.0, 4.0], [0.25, 1.0]]) * s * s, np.array([[2.0**-10, 1.0], [1.0, 2.0**10]]) * s * s,
            np.array([[0.5, 0.5], [2.0, 0.125]]) * s * s]
@@ -111,6 +111,17 @@ class _Apply:
                 m.update_means, m.update_variances, m.update_weights = True, True, True
                 m.max_fitting_steps = 2
             m.fit(X.copy())
+        elif kind == "sibling":
+            # a shallow copy of the machine is trained / re-configured; the machine itself must not be affected
+            sib = copy.copy(m)
+            if i == 0:
+                sib.update_means, sib.update_variances, sib.update_weights = True, True, True
+                sib.max_fitting_steps = 1
+                sib.fit(X.copy())
+            else:
+                sib.variance_thresholds = copy.deepcopy(FL[4])
+                sib.variances = VAR[1].copy()
+                sib.weights = W[1].copy()
         elif kind == "deepcopy":
             m = copy.deepcopy(m)
         elif kind == "pickle":
@@ -142,6 +153,16 @@ def run_case(case):
     apply_op = _Apply(s, o)
     scale = float(np.abs(P).max()) ** 2
 
+    def same_arr(a, b):
+        """equal up to 1e-12 relative; infinities (a pruned component has log-weight -inf) must coincide exactly"""
+        a, b = np.asarray(a, float), np.asarray(b, float)
+        if a.shape != b.shape:
+            return False
+        fin = np.isfinite(b)
+        if not np.array_equal(np.isfinite(a), fin) or not np.array_equal(a[~fin], b[~fin]):
+            return False
+        return bool(np.all(np.abs(a[fin] - b[fin]) <= 1e-12 * np.maximum(1.0, np.abs(b[fin]))))
+
     def invariant(m, hist):
         tags = dict(last=hist[-1][0] if hist else "start")
         w = np.asarray(m.weights, float)
@@ -155,11 +176,11 @@ def run_case(case):
         fresh.variance_thresholds = copy.deepcopy(thr)
         fresh.variances = var.copy()
         ll, lf = np.asarray(m.log_likelihood(P)), np.asarray(fresh.log_likelihood(P))
-        c.check(ll.shape == lf.shape and bool(np.all(np.abs(ll - lf) <= 1e-12 * np.maximum(1.0, np.abs(lf)))), "fresh_loglik",
+        c.check(same_arr(ll, lf), "fresh_loglik",
                 lambda: f"log_likelihood {ll.tolist()} differs from a fresh machine with the same visible parameters {lf.tolist()} after {hist}", tags)
         c.close(ll, og.ll(P, w, mu, var), "oracle_loglik", f"log_likelihood vs definition on the visible parameters after {hist}", tags)
         lw, lwf = np.asarray(m.log_weighted_likelihood(P)), np.asarray(fresh.log_weighted_likelihood(P))
-        c.check(lw.shape == lwf.shape and bool(np.all(np.abs(lw - lwf) <= 1e-12 * np.maximum(1.0, np.abs(lwf)))), "fresh_lwl",
+        c.check(same_arr(lw, lwf), "fresh_lwl",
                 lambda: f"log_weighted_likelihood differs from a fresh machine after {hist}", tags)
         st, sf = m.acc_stats(P), fresh.acc_stats(P)
         same = (st.t == sf.t and np.allclose(st.n, sf.n, rtol=1e-12, atol=1e-300) and np.allclose(st.sum_px, sf.sum_px, rtol=1e-12, atol=1e-12 * scale)
